@@ -6,6 +6,9 @@ package main
 // (engine-only: package main harness, model file system)
 
 import (
+	"bytes"
+	"io/ioutil"
+	"net/http"
 	"os"
 
 	"github.com/folbricht/desync"
@@ -75,5 +78,96 @@ func VerifC03_CmdStoreChain_E() {
 			vAssert(gerr == nil, "an object that does not match the ID was written into the cache")
 			_ = b
 		}
+	}
+}
+
+// verifNetwork is what lies behind every real *http.Transport the code under test builds from a
+// store URL (the engine routes http.Client.Do there): an in-process server.
+var verifNetwork http.RoundTripper
+
+type verifHandlerNet struct{ h http.Handler }
+
+type verifRecorderRW struct {
+	code int
+	hdr  http.Header
+	body []byte
+}
+
+func (w *verifRecorderRW) Header() http.Header {
+	if w.hdr == nil {
+		w.hdr = http.Header{}
+	}
+	return w.hdr
+}
+func (w *verifRecorderRW) Write(b []byte) (int, error) {
+	if w.code == 0 {
+		w.code = 200
+	}
+	w.body = append(w.body, b...)
+	return len(b), nil
+}
+func (w *verifRecorderRW) WriteHeader(c int) {
+	if w.code == 0 {
+		w.code = c
+	}
+}
+
+func (n verifHandlerNet) RoundTrip(r *http.Request) (*http.Response, error) {
+	w := &verifRecorderRW{}
+	if r.Body == nil {
+		r.Body = ioutil.NopCloser(bytes.NewReader(nil))
+	}
+	n.h.ServeHTTP(w, r)
+	if w.code == 0 {
+		w.code = 200
+	}
+	return &http.Response{StatusCode: w.code, Body: ioutil.NopCloser(bytes.NewReader(w.body)), Header: http.Header{}}, nil
+}
+
+// VerifC11_CmdRemoteCache_E: a chain shape the CLI can build with a cache that is not a local
+// directory (an HTTP chunk server).  The cache holds a damaged copy of the chunk, the upstream
+// store an intact one: with cache repair on (the default) the chain delivers the chunk and the
+// cache is repaired; with repair off the damage is reported, never delivered.
+func VerifC11_CmdRemoteCache_E() {
+	root := vTempDir()
+	os.Mkdir(root+"/store", 0755)
+	os.Mkdir(root+"/cachedir", 0755)
+	up, _ := desync.NewLocalStore(root+"/store", desync.StoreOptions{})
+	good := desync.NewChunk([]byte{0x61, 0x62})
+	other := desync.NewChunk([]byte{0x63, 0x64})
+	id := good.ID()
+	vAssert(up.StoreChunk(good) == nil, "store setup")
+	// the cache server's own store: holds another chunk's object under good's name
+	behind, _ := desync.NewLocalStore(root+"/cachedir", desync.StoreOptions{SkipVerify: true})
+	damaged := vChoose("cache-state", 3) // 0 empty, 1 damaged copy, 2 intact copy
+	switch damaged {
+	case 1:
+		fake, _ := desync.NewChunkWithID(id, []byte{0x63, 0x64}, true)
+		vAssert(behind.StoreChunk(fake) == nil, "cache setup")
+		_ = other
+	case 2:
+		vAssert(behind.StoreChunk(good) == nil, "cache setup")
+	}
+	verifNetwork = verifHandlerNet{desync.NewHTTPHandler(behind, true, true, desync.Converters{desync.Compressor{}}, "")}
+	var cmdOpt cmdStoreOptions
+	addStoreOptions(&cmdOpt, pflag.NewFlagSet("verif", pflag.ContinueOnError))
+	cmdOpt.n = 1
+	cmdOpt.cacheRepair = vChoose("cache-repair", 2) == 1
+	s, err := MultiStoreWithCache(cmdOpt, "http://cache/", root+"/store")
+	vAssert(err == nil, "MultiStoreWithCache failed")
+	c, err := s.GetChunk(id)
+	vCover("get-returned")
+	if err == nil {
+		b, derr := c.Data()
+		vAssert(derr == nil && desync.Digest.Sum(b) == id, "the chain delivered data that does not hash to the requested ID")
+	}
+	if damaged != 1 || cmdOpt.cacheRepair {
+		vAssert(err == nil, "chain with a healthy upstream failed (a damaged cache entry is to be repaired from upstream when cache repair is on)")
+	}
+	if err == nil && damaged == 1 {
+		// the cache now holds the right bytes under the ID
+		verified, _ := desync.NewLocalStore(root+"/cachedir", desync.StoreOptions{})
+		_, gerr := verified.GetChunk(id)
+		vAssert(gerr == nil, "the damaged cache entry was not replaced")
 	}
 }
